@@ -36,6 +36,45 @@ for _p in ("C03", "C04", "C11", "C12", "C19"):
     REGISTRY[_p] = _set_prop(_p)
 
 
+def _c09(report, tier):
+    from . import coqbuild
+    ok, broken = coqbuild.check_property("C09", report)
+    n0 = len(report.violations)
+    cov = vecprops.run_faults(tier, report)
+    report.coverage.update(cov)
+    # sets: random histories with injected throws (element copies, allocations), judged by the set driver's ledgers
+    from . import setprops, setgen, setrun
+    from .setgen import SCfg
+    jobs = [(n, setgen.random_script(SCfg(n), C.seed() + 9, 600 if tier == "thorough" else 80, 40, inject_prob=0.25)) for n in setgen.CONFIGS]
+    res = setrun.run_scripts(jobs)
+    nset = 0
+    for (name, lines), (cn, hs, err, berr) in zip(jobs, res):
+        if berr:
+            continue
+        scr = setrun.split_histories(lines)
+        for h in hs:
+            nset += len(h.steps)
+            fs = [f for f in h.failures() if f[1] in ("C09", "C02", "C06", "CRASH", "C03", "C04")]
+            threw_before = any(s.res.startswith("threw") for s in h.steps)
+            if fs and threw_before:
+                i, p, msg = fs[0]
+                hl = scr.get(h.hid, [])
+                report.violation({"config": name, "script": hl[: (i + 1 if i is not None else len(hl))], "oracle": p, "observed": msg,
+                                  "found_by": "set fault injection", "no_failing_input_found": False},
+                                 "%s: after an injected exception: %s\n  script: %s" % (name, msg, " ; ".join(hl[: (i + 1 if i is not None else len(hl))][-8:])))
+                break
+    report.coverage["set_steps_with_injection"] = nset
+    report.coverage["evaluations"] += nset
+    found = len(report.violations) > n0
+    if broken and not found:
+        report.violation({"broken": broken, "no_failing_input_found": True}, "proof obligations of C09 no longer check: " + "; ".join(broken)[:1200], True)
+    report.coverage["trusted_base"] = coqbuild.TRUSTED_BASE
+    report.level = "proof"
+
+
+REGISTRY["C09"] = _c09
+
+
 def _lazy(mod):
     def fn(report, tier):
         import importlib
